@@ -1011,7 +1011,28 @@ int main()
                     md += (k ? ";" : "") + (k < st.mdCount() ? mdStr(st.getMetadata(k)) : std::string("?"));
                 }
                 line = "ok n=" + std::to_string(st.size()) + " imgs=" + (imgs.empty() ? "-" : imgs) + " md=" + (md.empty() ? "-" : md);
-                if (recorder.errors != e0)
+                bool loadErr = recorder.errors != e0;
+                // the object after loading the prefixes that end at a state-record boundary or just before the metadata
+                // block (a plain StateStorage archive of the same states has the same header and state records)
+                size_t hdr;
+                {
+                    ob::StateStorage plain(x->space);
+                    for (auto *q : sts)
+                        plain.addState(q);
+                    std::ostringstream po;
+                    plain.store(po);
+                    hdr = po.str().size() - (size_t)x->space->getSerializationLength() * sts.size();
+                }
+                std::string rbm;
+                for (size_t k = 0; k <= sts.size(); ++k)
+                {
+                    GS pst(x->space);
+                    std::istringstream pin(bytes.substr(0, hdr + k * x->space->getSerializationLength()));
+                    pst.load(pin);
+                    rbm += (k ? "," : "") + std::to_string(pst.size()) + "/" + std::to_string(pst.mdCount());
+                }
+                line += " rbm=" + rbm;
+                if (loadErr)
                     line += " ERR";
             }
             // byte-level truncation sweep: error logged, nothing escapes, at most the stored states, each equal to the stored
@@ -1344,6 +1365,181 @@ int main()
             unsigned nv = pds->pd->numVertices();
             bool r = *natAt(1) < nv && *natAt(2) < nv && pds->pd->removeEdge((unsigned)*natAt(1), (unsigned)*natAt(2));
             std::cout << "ok=" << r << std::endl;
+        }
+        else if (op == "pdmarks" && t.size() == 3 && pds && natAt(1) && (t[2] == "s" || t[2] == "g"))
+        {
+            // markStartState / markGoalState with the caller's state pointer (which may or may not be a vertex)
+            auto it = states.find(*natAt(1));
+            if (it == states.end() || it->second.spid != pds->spid)
+            {
+                bad();
+                continue;
+            }
+            bool r = t[2] == "s" ? pds->pd->markStartState(it->second.st) : pds->pd->markGoalState(it->second.st);
+            std::cout << "ok=" << r << std::endl;
+        }
+        else if (op == "pdtags" && t.size() == 3 && pds && natAt(1) && vp::parseInt(t[2]) &&
+                 *vp::parseInt(t[2]) >= -2147483648LL && *vp::parseInt(t[2]) <= 2147483647LL)
+        {
+            auto it = states.find(*natAt(1));
+            if (it == states.end() || it->second.spid != pds->spid)
+            {
+                bad();
+                continue;
+            }
+            std::cout << "ok=" << pds->pd->tagState(it->second.st, (int)*vp::parseInt(t[2])) << std::endl;
+        }
+        else if (op == "pdidx" && t.size() == 2 && pds && natAt(1))
+        {
+            auto it = states.find(*natAt(1));
+            if (it == states.end() || it->second.spid != pds->spid)
+            {
+                bad();
+                continue;
+            }
+            unsigned idx = pds->pd->vertexIndex(ob::PlannerDataVertex(it->second.st));
+            std::cout << "idx=" << (idx == ob::PlannerData::INVALID_INDEX ? std::string("none") : std::to_string(idx)) << std::endl;
+        }
+        else if (op == "pdes" && pds && t.size() >= 6 && natAt(1) && vp::parseInt(t[2]) && natAt(3) && vp::parseInt(t[4]) &&
+                 vp::parseBits(t[5]))
+        {
+            // addEdge(const PlannerDataVertex &v1, const PlannerDataVertex &v2, edge, weight): adds the vertices it needs
+            auto i1 = states.find(*natAt(1)), i2 = states.find(*natAt(3));
+            long long tag1 = *vp::parseInt(t[2]), tag2 = *vp::parseInt(t[4]);
+            bool ok = i1 != states.end() && i2 != states.end() && i1->second.spid == pds->spid && i2->second.spid == pds->spid &&
+                      tag1 >= -2147483648LL && tag1 <= 2147483647LL && tag2 >= -2147483648LL && tag2 <= 2147483647LL;
+            double w = *vp::parseBits(t[5]);
+            bool r = false;
+            if (ok && pds->cdim < 0)
+            {
+                if (t.size() != 6)
+                    ok = false;
+                else
+                    r = pds->pd->addEdge(ob::PlannerDataVertex(i1->second.st, (int)tag1), ob::PlannerDataVertex(i2->second.st, (int)tag2),
+                                         ob::PlannerDataEdge(), ob::Cost(w));
+            }
+            else if (ok)
+            {
+                size_t i = 7;
+                auto dur = t.size() > 6 ? vp::parseBits(t[6]) : std::nullopt;
+                auto xs = vp::takeCounted(t, i);
+                ok = dur && xs && i == t.size() && (int)xs->size() == pds->cdim;
+                std::vector<double> vals;
+                if (ok)
+                    for (auto &a : *xs)
+                    {
+                        auto b = vp::parseBits(a);
+                        if (!b)
+                            ok = false;
+                        else
+                            vals.push_back(*b);
+                    }
+                if (ok)
+                {
+                    oc::Control *c = pds->cspace->allocControl();
+                    for (int k = 0; k < pds->cdim; ++k)
+                        c->as<oc::RealVectorControlSpace::ControlType>()->values[k] = vals[k];
+                    pds->controls.push_back(c);
+                    r = pds->pd->addEdge(ob::PlannerDataVertex(i1->second.st, (int)tag1), ob::PlannerDataVertex(i2->second.st, (int)tag2),
+                                         oc::PlannerDataEdgeControl(c, *dur), ob::Cost(w));
+                }
+            }
+            if (!ok)
+            {
+                bad();
+                continue;
+            }
+            std::cout << "ok=" << r << " nv=" << pds->pd->numVertices() << std::endl;
+        }
+        else if (op == "pdrmvs" && t.size() == 2 && pds && natAt(1))
+        {
+            auto it = states.find(*natAt(1));
+            if (it == states.end() || it->second.spid != pds->spid)
+            {
+                bad();
+                continue;
+            }
+            std::cout << "ok=" << pds->pd->removeVertex(ob::PlannerDataVertex(it->second.st)) << std::endl;
+        }
+        else if (op == "pdrmes" && t.size() == 3 && pds && natAt(1) && natAt(2))
+        {
+            auto i1 = states.find(*natAt(1)), i2 = states.find(*natAt(2));
+            if (i1 == states.end() || i2 == states.end() || i1->second.spid != pds->spid || i2->second.spid != pds->spid)
+            {
+                bad();
+                continue;
+            }
+            std::cout << "ok=" << pds->pd->removeEdge(ob::PlannerDataVertex(i1->second.st), ob::PlannerDataVertex(i2->second.st))
+                      << std::endl;
+        }
+        else if (op == "pdclear" && t.size() == 1 && pds)
+        {
+            pds->pd->clear();
+            std::cout << "ok" << std::endl;
+        }
+        else if (op == "pddecouple" && t.size() == 1 && pds)
+        {
+            pds->pd->decoupleFromPlanner();
+            std::cout << "ok" << std::endl;
+        }
+        else if (op == "pdextract" && t.size() == 2 && pds && natAt(1))
+        {
+            // PlannerData::extractStateStorage(): a GraphStateStorage holding the vertex states in the iteration order of the
+            // pointer-keyed stateIndexMap_, each with its out-neighbours as storage indices.  The harness recovers that order
+            // (std::map<const State*, unsigned> over the vertices' state pointers: same comparator) and prints the storage
+            // per VERTEX: state image and neighbours mapped back to vertex indices; then store -> load -> same dump.
+            struct GS : ob::GraphStateStorage
+            {
+                using ob::GraphStateStorage::GraphStateStorage;
+                size_t mdCount() const { return metadata_.size(); }
+                // metadata_ of an object that is NOT a GS (the one extractStateStorage made): protected member through a
+                // pointer to member named via the derived class
+                static size_t countOf(const ob::GraphStateStorage &g) { return (g.*(&GS::metadata_)).size(); }
+            };
+            unsigned nv = pds->pd->numVertices();
+            std::map<const ob::State *, unsigned> byPtr;
+            for (unsigned i = 0; i < nv; ++i)
+                byPtr[pds->pd->getVertex(i).getState()] = i;
+            std::vector<unsigned> order;        // storage index -> vertex index
+            for (auto &e : byPtr)
+                order.push_back(e.second);
+            std::vector<size_t> pos(nv, 0);      // vertex index -> storage index
+            for (size_t j = 0; j < order.size(); ++j)
+                pos[order[j]] = j;
+            auto dumpStore = [&](const ob::GraphStateStorage &gs, size_t mdc) {
+                if (gs.size() != nv || mdc != nv)
+                    return std::string("size-mismatch:") + std::to_string(gs.size()) + "/" + std::to_string(mdc);
+                std::string X;
+                for (unsigned v = 0; v < nv; ++v)
+                {
+                    size_t j = pos[v];
+                    X += (v ? ";" : "") + ownImage(pds->node, gs.getState(j)) + ":";
+                    const auto &m = gs.getMetadata(j);
+                    std::string q;
+                    for (size_t k = 0; k < m.size(); ++k)
+                        q += (k ? "." : "") + (m[k] < order.size() ? std::to_string(order[m[k]]) : std::string("?"));
+                    X += q.empty() ? "-" : q;
+                }
+                return X.empty() ? std::string("-") : X;
+            };
+            ob::StateStoragePtr ex = pds->pd->extractStateStorage();
+            auto *gs = static_cast<ob::GraphStateStorage *>(ex.get());
+            bool md = ex->hasMetadata();
+            std::string X = md ? dumpStore(*gs, GS::countOf(*gs)) : std::string("no-metadata");
+            std::string rt = "same";
+            size_t nbytes = 0;
+            {
+                std::ostringstream out;
+                ex->store(out);
+                nbytes = out.str().size();
+                GS back(pds->node->space);
+                std::istringstream in(out.str());
+                unsigned e0 = recorder.errors;
+                back.load(in);
+                if (recorder.errors != e0 || dumpStore(back, back.mdCount()) != X)
+                    rt = "differs";
+            }
+            std::cout << "n=" << nv << " X=" << X << " rt=" << rt << " # bytes=" << nbytes << std::endl;
         }
         else if (op == "pddump" && t.size() == 1 && pds)
         {
